@@ -10,7 +10,7 @@ From Coq Require Import NArith List Bool Arith Permutation.
 From DBG Require Import Proofs.AbstractWalk.
 From DBG Require Import Spec.Dna Spec.GraphIndex Spec.Unitig Spec.CompressSpec Packed.ExtsModel Algo.Compress
   Check.GraphCheck Check.CompressHyp Proofs.CompressBasics Proofs.CompressRefine Proofs.CompressWalk Proofs.CompressProofs
-  Proofs.CompressHypProofs.
+  Proofs.CompressHypProofs Proofs.GraphCheckProofs.
 Import ListNotations.
 Local Open Scope nat_scope.
 
@@ -62,6 +62,17 @@ Theorem C01_hypotheses_decidable : forall D K stranded (T : table D),
   (exts_symb D stranded T = true -> exts_sym D stranded T).
 Proof. intros. split; [apply tbl_okb_sound | apply exts_symb_sound]. Qed.
 Print Assumptions C01_hypotheses_decidable.
+
+(* (g) The boolean checker run by the correspondence driver on the IMPLEMENTATION's nodes is sound: acceptance
+   implies the partition, step and terminal-extension clauses above and the payload clause read for the harness
+   payload (colour, id list) under pay_reduce: the node's id list is a permutation of the ids of exactly the
+   node's k-mers and its colour is the colour of one of them ([payload_pay_ok], Proofs/GraphCheckProofs.v). *)
+Theorem C01_chk_c01_sound : forall K stranded (T : table pay) (nodes : list (node pay)),
+  chk_c01 K stranded T nodes = true ->
+  partition_ok pay K stranded T nodes /\ steps_ok pay K stranded T nodes /\
+  payload_pay_ok K stranded T nodes /\ terminal_ok pay K stranded T nodes.
+Proof. exact chk_c01_sound. Qed.
+Print Assumptions C01_chk_c01_sound.
 
 (* non-vacuity: K = 4, unstranded, the canonical 4-mers of ACGTTGCAACTCCGA with extensions derived from
    membership: two palindromes (ACGT, TGCA), a hairpin, a node spelled against its seed's strand *)
